@@ -14,7 +14,8 @@ A_FinalizeCrash == /\ round <= MaxBlocks
                    /\ Finalize(FALSE)
 A_Prune == /\ pruned < MaxBlocks
            /\ \E v \in 1..MaxBlocks : Prune(v)
-A_Rollback == \E n \in 1..MaxBlocks : Rollback(n)
+A_Rollback == /\ nroll < MaxRollbacks
+              /\ \E n \in 1..MaxBlocks : Rollback(n)
 MCNext == A_Insert \/ A_Delete \/ A_Finalize \/ A_FinalizeCrash \/ A_Prune \/ A_Rollback
 MCSpec == Init /\ [][MCNext]_vars
 =============================================================================
